@@ -161,7 +161,7 @@ uint32_t Ruleset__run_action_chain(Ruleset *self, vecit_uptr_BasePlugin action_c
                                        : (g_chain_first == action_chain_start.i && ACTX_EQ(g_chain_ctx, __CPROVER_old(g_ctx_action))))
   /* the chain stops exactly at the first STOP / ASYNC_PAUSED, else runs to the end */ /*@C02*/
   __CPROVER_ensures(g_action_runs > 0 && g_last_ret == PluginRet__CONTINUE ? action_chain_start.i + g_action_runs == action_chain_end.i : 1)
-  /* ASYNC_PAUSED: chain suspended on that very plugin with the context of this chain */ /*@C06*/
+  /* ASYNC_PAUSED: chain suspended on that very plugin with the context of this chain */ /*@C06,C07*/
   __CPROVER_ensures((g_action_runs > 0 && g_last_ret == PluginRet__ASYNC_PAUSED)
       ? (__CPROVER_return_value == 0 && self->active_action_chain_state_.has &&
          self->active_action_chain_state_.val.active_plugin >= ACTION_BASE &&
@@ -224,14 +224,14 @@ uint32_t Ruleset__runOnceImpl(Ruleset *self, OomdContext context)
          self->active_action_chain_state_.has == __CPROVER_old(self->active_action_chain_state_.has) &&
          TP_EQ(self->pause_actions_until_, __CPROVER_old(self->pause_actions_until_)))
       : 1)
-  /* not paused, suspended chain: that same action is resumed with its saved context; no chain start */ /*@C06*/
+  /* not paused, suspended chain: that same action is resumed with its saved context (uuid, hook deadline, target); no chain start */ /*@C06,C07*/
   __CPROVER_ensures((!TP_LT(RS_TPAUSE, __CPROVER_old(self->pause_actions_until_)) && __CPROVER_old(self->active_action_chain_state_.has))
       ? (g_action_runs >= 1 && RS_CHAIN_RET(__CPROVER_return_value) &&
          g_chain_first == (uint64_t)(__CPROVER_old(self->active_action_chain_state_.val.active_plugin) - ACTION_BASE) &&
          ACTX_EQ(g_chain_ctx, __CPROVER_old(ACTX_OF(self->active_action_chain_state_.val.action_context))))
       : 1)
   /* not paused, no suspended chain: the chain starts at the first action iff a group fired, with the context
-     naming this ruleset and the FIRST group that fired */ /*@C02*/
+     naming this ruleset and the FIRST group that fired, hook deadline = time of firing + prekill_hook_timeout */ /*@C02,C07*/
   __CPROVER_ensures((!TP_LT(RS_TPAUSE, __CPROVER_old(self->pause_actions_until_)) && !__CPROVER_old(self->active_action_chain_state_.has))
       ? (RS_FIRED ? (RS_CHAIN_RET(__CPROVER_return_value) &&
                      (self->action_group_.n > 0
